@@ -275,7 +275,7 @@ func alterBytes(b []byte, cls string, variant int) ([]byte, bool) {
 	out := append([]byte{}, b...)
 	switch cls {
 	case "ver":
-		out[0] = []byte{2, 0, 3, 0x81}[variant%4]
+		out[0] = []byte{2, 3, 0x81, 0}[variant%4]
 	case "roleSwap":
 		if out[1] == roleSenderB {
 			out[1] = roleRecvB
@@ -824,7 +824,8 @@ func AuthBits(args []string) {
 		if i%*shards != *shard {
 			continue
 		}
-		if *sample > 1 && c.to != "none" && ((i / *shards)+*seed)%*sample != 0 {
+		// version and role bytes (16 bit positions per direction) are never sampled out
+		if *sample > 1 && c.to != "none" && !(c.bit >= 0 && c.bit < 16) && ((i / *shards)+*seed)%*sample != 0 {
 			continue
 		}
 		d, a, cleanup, err := sh.lnR.connect()
